@@ -23,7 +23,7 @@ META = {
         'kind a literal alternative can build, the head of its repr resolves in the exec namespace to the class '
         'that built it; (D6) the row loop keeps order, appends exactly on truth, stops at limit, carries '
         'version/metadata/columns; (D7) references are followed only on non-final segments, through the id index; '
-        '(D8) the literal sub-grammar agrees with its ZINC sibling (token languages and unescape step).  (D8) text chain: the filter text reaches hs_filter.parseString unchanged through filter_function, _filter_function and parse_filter.  (D7 also) the id index that `->` dereferencing uses is rebuilt/updated on every mutation (clauses shared with C15.D1/D3).  Not decided: '
+        '(D8) the literal sub-grammar agrees with its ZINC sibling (token languages and unescape step).  (D8) text chain: the filter text reaches hs_filter.parseString unchanged through filter_function, _filter_function and parse_filter.  (D7 also) the id index that `->` dereferencing uses is rebuilt/updated on every mutation (clauses shared with C15.D1/D3).  Also (D3): the binary branch template keeps the node or each operand parenthesised; (D5) __repr__ of every literal class shows its fields exactly (no rounding/formatting); (D8) the text chain starts at Grid.filter.  Not decided: '
         'semantic equivalence of compiled code and filter over all programs x data as an execution; spacing variants.'),
     'rule_text': 'obligations = grammar-structure facts, fold index coverage, operator-table rows, sentinel methods, '
                  'literal kinds x resolvability, generator branches, loop facts, sibling pairs',
